@@ -65,8 +65,8 @@ Definition recv_line_junk (ty : list byte) (pend : pending) : rres := recv_line 
 Definition in_ranges (rs : list (N * N)) (b : byte) : bool :=
   existsb (fun r => (fst r <=? b) && (b <=? snd r)) rs.
 Definition is_trzsz_letter (b : byte) : bool :=
-  in_ranges Consts.trzsz_letter_ranges b || existsb (N.eqb b) Consts.trzsz_letter_singles.
-Definition is_vt100_end (b : byte) : bool := in_ranges Consts.vt100_end_ranges b.
+  in_ranges Consts.noise_letter_ranges b || existsb (N.eqb b) Consts.trzsz_letter_singles.
+Definition is_vt100_end (b : byte) : bool := in_ranges Consts.noise_vt100_end_ranges b.
 
 (* the six locals of readLineOnWindows *)
 Record wst := mk_wst {
